@@ -16,7 +16,8 @@ META = {
             "boxing, defer, early exits, multi-value results ...) and over every (value type, usage context) cell of the feature matrix are "
             "compiled by the real pipeline and run instrumented; host-side malloc/free accounting at loop checkpoints after 4, 10, 100, 300, 1000 "
             "(thorough: 5000) iterations must show the same number of allocated blocks, a heap pointer (__heap_ptr, the heap's high-water mark) "
-            "that does not move after iteration 100, and at exit nothing left of what non-final iterations allocated. Bodies include data parked "
+            "that does not move after iteration 100, and at exit nothing left of what non-final iterations allocated. Bodies include a systematic discarded-result family (7 call kinds x every "
+            "discarding statement position incl. defer x 10 reference-bearing result types, 329 loops), data parked "
             "in package-level variables / fields of global structs and dropped again inside the iteration, and bursts of 60/100/300 frees of one "
             "size class (across the capacity of the allocator's fixed-size free lists), where only the heap-size clause can see a loss. Two cyclic bodies are run as a sensitivity control and must be flagged.",
     "note": "Trusted: as C11 (WAT rewriting, host accounting, wazero). Modelled-not-verified: the compiler's release placement on scope exit / "
@@ -88,6 +89,10 @@ def run(ctx):
     # bursts of frees of one size class across the capacity (64) of the allocator's fixed-size lists: heap-size clause
     for bname, bsrc, bnames in c11_progs.burst_programs(n_burst, per=1):
         progs.append((bname, bsrc, ["burst:" + x for x in bnames], False, False))
+    # discarded results: every call kind x discarding statement position x reference-bearing result type
+    n_discard = int(os.environ.get("VERIF_C12_NDISCARD", "300" if quick else "1000"))
+    for dname, dsrc, dnames in c11_progs.discard_programs(n_discard):
+        progs.append((dname, dsrc, dnames, False, False))
     progs.append(("loops:traced", c11_progs.loop_program(bodies, 10), ["loop:" + b[0] for b in bodies], False, True))
     cyc = [(k,) + v for k, v in c11_progs.CYCLE_BODIES.items()]
     progs.append(("cycles", c11_progs.loop_program(cyc, min(n_loop, 1000)), ["cycle:" + b[0] for b in cyc], True, False))
